@@ -245,15 +245,23 @@ impl GenericsAnalyzer {
 
         if let Some(where_clause) = &generics.where_clause {
             for predicate in &where_clause.predicates {
+                // a predicate that names a lifetime of the function stays on the method,
+                // where that lifetime is declared
+                let hoist = !mentions_fn_lifetime(predicate, generics);
+
                 match predicate {
                     syn::WherePredicate::Type(predicate_type) => match &predicate_type.bounded_ty {
                         syn::Type::Path(type_path) => {
                             if type_path.qself.is_some() || type_path.path.leading_colon.is_some() {
-                                self.trait_generics.where_predicates.push(predicate.clone());
+                                if hoist {
+                                    self.trait_generics.where_predicates.push(predicate.clone());
+                                }
                                 continue;
                             }
                             if type_path.path.segments.len() != 1 {
-                                self.trait_generics.where_predicates.push(predicate.clone());
+                                if hoist {
+                                    self.trait_generics.where_predicates.push(predicate.clone());
+                                }
                                 continue;
                             }
                             let first_segment = type_path.path.segments.first().unwrap();
@@ -265,11 +273,15 @@ impl GenericsAnalyzer {
                             }
                         }
                         _ => {
-                            self.trait_generics.where_predicates.push(predicate.clone());
+                            if hoist {
+                                self.trait_generics.where_predicates.push(predicate.clone());
+                            }
                         }
                     },
                     _ => {
-                        self.trait_generics.where_predicates.push(predicate.clone());
+                        if hoist {
+                            self.trait_generics.where_predicates.push(predicate.clone());
+                        }
                     }
                 }
             }
@@ -300,12 +312,48 @@ impl GenericsAnalyzer {
 
         if let Some(where_clause) = &generics.where_clause {
             for predicate in &where_clause.predicates {
-                self.trait_generics.where_predicates.push(predicate.clone());
+                if !mentions_fn_lifetime(predicate, generics) {
+                    self.trait_generics.where_predicates.push(predicate.clone());
+                }
             }
         }
 
         Ok(deps)
     }
+}
+
+/// Whether a where-predicate refers to a lifetime parameter of the function.
+/// Lifetime parameters stay on the generated method, so such a predicate cannot move to the trait.
+fn mentions_fn_lifetime(predicate: &syn::WherePredicate, generics: &syn::Generics) -> bool {
+    fn contains_lifetime(stream: proc_macro2::TokenStream, names: &[String]) -> bool {
+        let mut after_apostrophe = false;
+        for token in stream {
+            match token {
+                proc_macro2::TokenTree::Punct(punct) => after_apostrophe = punct.as_char() == '\'',
+                proc_macro2::TokenTree::Ident(ident) => {
+                    if after_apostrophe && names.contains(&ident.to_string()) {
+                        return true;
+                    }
+                    after_apostrophe = false;
+                }
+                proc_macro2::TokenTree::Group(group) => {
+                    if contains_lifetime(group.stream(), names) {
+                        return true;
+                    }
+                    after_apostrophe = false;
+                }
+                proc_macro2::TokenTree::Literal(_) => after_apostrophe = false,
+            }
+        }
+        false
+    }
+
+    let names: Vec<String> = generics
+        .lifetimes()
+        .map(|param| param.lifetime.ident.to_string())
+        .collect();
+
+    !names.is_empty() && contains_lifetime(quote::ToTokens::to_token_stream(predicate), &names)
 }
 
 fn extract_trait_bounds(
